@@ -198,6 +198,8 @@ def run(ck: Check) -> int:
         api = 'globfilter' if len(res) % 2 else 'globmatch'
         rs, bits = K.run_real_match(G, t, cands, c.pats, fl, c.exclude, api, c.mode)
         m = drv.ask(K.match_line(t, fl, pe, ee, cands))
+        if m == 'timeout':
+            return
         k6['evaluations'] += len(cands)
         if rs != 'ok' or not m.startswith('ok '):
             k6['disagree'].append({'stream': 'K6', **c.to_json(G, t), 'code': (rs, bits[:60]), 'model': m[:60]})
@@ -217,6 +219,20 @@ def run(ck: Check) -> int:
                 if verdict[x] == '1':
                     found.append(Failing(f'REALPATH matched the non-existent path {x!r}', c.to_json(G, t), False, True,
                                          'wcmatch/_wcmatch.py:212-231'))
+        # "a relative pattern never matches an absolute path" (REALPATH): absolute spellings of existing entries
+        # (added after seeded change C04c: the MATCHBASE prefix lost its root guard)
+        plist = [c.pats] if isinstance(c.pats, str) else list(c.pats)
+        if all(q and not q.startswith(('/', '!', '-', '~', '\\')) for q in plist) and not fl & (G.BRACE | G.SPLIT | G.NEGATE) and c.exclude is None:
+            abs_c = [os.path.join(t.root, e) for e in t.entries[:8]]
+            abs_c += [a + '/' for a in abs_c if os.path.isdir(a)]
+            rsA, bitsA = K.run_real_match(G, t, abs_c, c.pats, fl, None, 'globmatch', c.mode)
+            if rsA == 'ok':
+                stats['side:abs-vs-rel'] += len(abs_c)
+                for a, b in zip(abs_c, bitsA):
+                    if b == '1':
+                        found.append(Failing(f'REALPATH: the relative pattern {c.pats!r} matched the absolute path {a!r}',
+                                             {**c.to_json(G, t), 'path': a}, False, True, 'wcmatch/_wcparse.py:_NO_ROOT / MATCHBASE prefix'))
+                        break
         # ---------------- the property: glob set vs REALPATH-match set
         S1 = {strip(p) for p in res}
         # existing paths reached THROUGH symlinked directories belong to the universe as well (a written
